@@ -244,3 +244,107 @@ def min_isi(trains, ts, te):
         for a, b in zip(s, s[1:]):
             m = min(m, b - a)
     return m
+
+
+# ----------------------------------------------------------------------------------------- W8 function histories
+VALS = [0.0, 1.0, -1.0, 0.5, -0.5, 2.25, 0.25, 0.75, 3.0, -2.0, 0.125]
+
+
+def func_setting(rng):
+    ts = rng.choice([0.0, -4.0, 16.0, 0.5])
+    T = rng.choice([1.0, 8.0, 64.0, 0.25])
+    grid = rng.choice([4, 8, 16, 32])
+    return ts, ts + T, grid
+
+
+def rand_breaks(rng, ts, te, grid, maxn=12, dyadic=True):
+    T = te - ts
+    n = rng.choice([0, 0, 1, 1, 2, 3] + list(range(maxn + 1)))
+    if dyadic:
+        n = min(n, grid - 1)
+        ks = sorted(rng.sample(range(1, grid), n)) if n else []
+        return [ts] + [ts + k * T / grid for k in ks] + [te]
+    pts = sorted({ts + rng.random() * T for _ in range(n)})
+    pts = [t for t in pts if ts < t < te]
+    return [ts] + pts + [te]
+
+
+def pwc_func(rng, ts, te, grid, shared=None, int_valued=False, dyadic=True):
+    x = rand_breaks(rng, ts, te, grid, dyadic=dyadic)
+    if shared and rng.random() < 0.4:
+        inner = sorted(set(x[1:-1]) | set(rng.sample(shared, min(len(shared), rng.randint(1, 3)))))
+        x = [ts] + inner + [te]
+    if int_valued:
+        y = [rng.randint(0, 5) for _ in range(len(x) - 1)]
+    else:
+        y = [rng.choice(VALS) if rng.random() < 0.8 else rng.uniform(-3, 3) for _ in range(len(x) - 1)]
+    return {"x": x, "y": y}
+
+
+def pwl_func(rng, ts, te, grid, shared=None, dyadic=True, int_valued=False):
+    f = pwc_func(rng, ts, te, grid, shared, dyadic=dyadic)
+    n = len(f["x"]) - 1
+    if int_valued:
+        return {"x": f["x"], "y1": [rng.randint(0, 4) for _ in range(n)], "y2": [rng.randint(0, 4) for _ in range(n)]}
+    y1 = [rng.choice(VALS) if rng.random() < 0.8 else rng.uniform(-3, 3) for _ in range(n)]
+    y2 = [(y1[k] if rng.random() < 0.2 else rng.choice(VALS)) for k in range(n)]
+    return {"x": f["x"], "y1": y1, "y2": y2}
+
+
+def disc_func(rng, ts, te, grid, shared=None, base_mp=1):
+    T = te - ts
+    n = rng.choice([0, 0, 1, 2, 3] + list(range(9)))
+    n = min(n, grid - 1)
+    ks = set(rng.sample(range(1, grid), n)) if n else set()
+    if rng.random() < 0.3:
+        ks.add(0)
+    if rng.random() < 0.3:
+        ks.add(grid)
+    times = sorted(ts + k * T / grid for k in ks)
+    if shared and rng.random() < 0.5:
+        times = sorted(set(times) | set(rng.sample(shared, min(len(shared), rng.randint(1, 3)))))
+    mp = [float(base_mp * rng.choice([1, 1, 1, 2, 3])) for _ in times]
+    y = [float(rng.randint(0, int(m))) if rng.random() < 0.8 else float(-rng.randint(0, int(m))) for m in mp]
+    if times:
+        x = [ts] + times + [te]
+        return {"x": x, "y": [y[0]] + y + [y[-1]], "mp": [mp[0]] + mp + [mp[-1]]}
+    return {"x": [ts, te], "y": [float(base_mp), float(base_mp)], "mp": [float(base_mp), float(base_mp)]}
+
+
+def history(rng, kind, tier):
+    """random operation sequence over a pool of functions of one kind ('pwc' | 'pwl' | 'disc')"""
+    ts, te, grid = func_setting(rng)
+    dyadic = rng.random() < 0.8
+    nf = rng.randint(2, 4)
+    funcs = []
+    shared = []
+    int_valued = (kind in ("pwc", "pwl") and rng.random() < 0.15)
+    for _ in range(nf):
+        if kind == "pwc":
+            f = pwc_func(rng, ts, te, grid, shared, int_valued=int_valued, dyadic=dyadic)
+        elif kind == "pwl":
+            f = pwl_func(rng, ts, te, grid, shared, dyadic=dyadic, int_valued=int_valued)
+        else:
+            f = disc_func(rng, ts, te, grid, shared)
+        shared = sorted(set(shared) | set(f["x"][1:-1]))
+        funcs.append(f)
+    nops = rng.randint(1, 8 if tier == "quick" else 12)
+    ops = []
+    npool = nf
+    for _ in range(nops):
+        r = rng.random()
+        if r < 0.55:
+            i = rng.randrange(npool)
+            j = rng.randrange(npool)
+            if i == j and rng.random() < 0.8:
+                j = (j + 1) % npool
+            ops.append(["add", i, j])
+        elif r < 0.80 and kind != "disc":
+            ops.append(["mul", rng.randrange(npool), rng.choice([0.5, 2.0, -1.0, 0.25, 1.0 / 3, 3.0, 0.0, 1.5])])
+        elif r < 0.85 and kind == "disc":
+            ops.append(["mul", rng.randrange(npool), rng.choice([0.5, 2.0])])
+        else:
+            ops.append(["copy", rng.randrange(npool)])
+            npool += 1
+    return {"kind": kind, "ts": ts, "te": te, "grid": grid, "dyadic": dyadic, "int_valued": int_valued,
+            "funcs": funcs, "ops": ops}
